@@ -319,7 +319,7 @@ class OtherValuesRoundTrip(Contract):
     symbolic = False
     has_native = True
     props = ("C08",)
-    bounded_scope = "comments (ASCII, accented, astral, empty author), byte blobs (empty, all 256 byte values, 10 kB pseudo-random, and 1 B / 4 KiB / 1 MiB-1 / 1 MiB / 1 MiB+1 / 3 MiB+5), metadata dictionaries (nested dicts and lists, Unicode keys and values, numbers, booleans, None) on points and groups"
+    bounded_scope = "comments (ASCII, accented, astral, empty author), byte blobs (empty, all 256 byte values, 10 kB pseudo-random, and 1 B / 4 KiB / 1 MiB-1 / 1 MiB / 1 MiB+1 / 3 MiB+5), metadata dictionaries (nested dicts and lists, Unicode keys and values, numbers, booleans, None) on points and groups; entries added to stored metadata in the same and in a later session, before or after it was read there"
 
     def native_cases(self, tier, rng):
         for texts in (["first"], ["un café", "日本語 𝔘", ""], ["a" * 300, "line\nbreak"]):
@@ -331,6 +331,10 @@ class OtherValuesRoundTrip(Contract):
             yield {"kind": "file", "blob": size}
         for md in ({"k": "v"}, {"niveau": {"clé": ["é", 1, 2.5, True, None], "deep": {"x": {"y": [1, [2, 3]]}}}, "n": 0, "f": -1.5e-30}, {"": "", "empty": {}, "list": []}):
             yield {"kind": "metadata", "value": md}
+        # entries added to stored metadata in a later session (the setter adds to what is there), before or after it was read there
+        for read_first in (False, True):
+            for same_session in (False, True):
+                yield {"kind": "metadata-update", "read_first": read_first, "same_session": same_session}
 
     def native_check(self, case):
         from geoh5py.groups import ContainerGroup
@@ -372,6 +376,31 @@ class OtherValuesRoundTrip(Contract):
                     name = None if not kids else kids[0].file_name
                 if back is None or bytes(back) != blob or name != "blob.bin":
                     return f"attached file of {len(blob)} bytes read back as {None if back is None else len(bytes(back))} bytes (name {name!r})"
+                return None
+            if case["kind"] == "metadata-update":
+                first, more = {"survey": "2021", "crew": {"lead": "A"}}, {"processed": True, "crew": {"lead": "B", "n": 3}}
+                want = dict(first)
+                want.update(more)
+                with Workspace.create(path) as ws:
+                    p = Points.create(ws, vertices=np.zeros((2, 3)), name="p")
+                    g = ContainerGroup.create(ws, name="g")
+                    p.metadata, g.metadata = dict(first), dict(first)
+                    if case["same_session"]:
+                        p.metadata, g.metadata = dict(more), dict(more)
+                if not case["same_session"]:
+                    with Workspace(path, mode="r+") as ws:
+                        for nm in ("p", "g"):
+                            e = ws.get_entity(nm)[0]
+                            if case["read_first"]:
+                                _ = e.metadata
+                            e.metadata = dict(more)
+                            if e.metadata != want:
+                                return f"metadata of {nm} holding {first} was given {more} in a later session ({'after' if case['read_first'] else 'before'} being read there): it now holds {e.metadata}, expected {want} ({case})"
+                with Workspace(path, mode="r") as ws:
+                    for nm in ("p", "g"):
+                        back = ws.get_entity(nm)[0].metadata
+                        if back != want:
+                            return f"metadata of {nm}: {first} then {more} were written; a later reader sees {back}, expected {want} ({case})"
                 return None
             md = case["value"]
             with Workspace.create(path) as ws:
